@@ -232,7 +232,7 @@ Wake(st, prog, mode, r) ==
         s0 == [st EXCEPT !.q = Put(st.q, c, Tail(st.q[c])), !.last = lt,
                          !.bad = IF ~IsId(c) /\ ~ExactB2S(st.clk[c], e.p) THEN "nondyadic" ELSE st.bad] IN
     IF me.st = "paused" \/ me.st = "done" THEN s0
-    ELSE LET s1 == [s0 EXCEPT !.rt = Put(s0.rt, r, [me EXCEPT !.n = me.n + 1, !.st = "susp"]),
+    ELSE LET s1 == [s0 EXCEPT !.rt = Put(s0.rt, r, [me EXCEPT !.n = me.n + 1, !.st = "susp", !.lt = lt]),
                               !.out = Append(s0.out, Obs(r, me.n, lt, IF IsId(c) THEN lt ELSE e.p))] IN
          Exec(s1, prog, mode, r, lt, e.p)
 
